@@ -10,7 +10,7 @@ from .c08 import known_key
 
 def jobs_for(tier, rng):
     jobs = []
-    n = 48 if tier == "quick" else 300
+    n = 48 if tier == "quick" else 1000
     for k in range(n):
         if k % 2 == 0:
             # undiscounted, chains periodic with period q (and transient states)
@@ -33,6 +33,7 @@ def jobs_for(tier, rng):
             p, g = rng.randint(1, 4), [1, 2]
             eps, calls, cert = [1, rng.choice([0, 2, 4])], [rng.choice([7, 9])], False
         jobs.append({"mdp": m, "kind": "PVI", "gamma": g, "eps": eps, "period": p, "clear": k % 3 == 0,
+                     "gamma_as_int": k % 4 == 0, "eps_as_int": k % 6 == 0,
                      "calls": calls, "mbs": rng.choice([2, 3, 1024]), "cert": cert, "tag": f"pvi{k}"})
     return jobs
 
